@@ -10,10 +10,11 @@ inputs on which the property text is unambiguous:
     everything else over that alphabet which python rejects counts as malformed;
   * a file with a non-ASCII character outside a comment is not judged (the property text
     says nothing about it; the code returns ExpectedAscii);
-  * a line whose single field is not an address ("zzz", "zzz # c") may be ignored or be an
-    error (the text says address-only lines are ignored and lines *that map names* with a
-    malformed address are errors; the code ignores "zzz" and "zzz#c" but rejects "zzz " and
-    "zzz #c" -- reported in the final notes, not judged);
+  * an address-only line is ignored whatever its single field is ("zzz", "zzz#c", "zzz ",
+    "zzz #c": the text says address-only lines are ignored and lines *that map names* with a
+    malformed address are errors).  Before /repo commit 25db594 the code rejected "zzz " and
+    "zzz #c"; a file rejected only because of such a line is a failure of class
+    address-only-malformed-line-rejected (fixed finding: a recurrence fails the check);
   * a first field that begins with '%' is not judged.
 """
 import ipaddress
@@ -46,7 +47,7 @@ ASSUMPTIONS = [
     "HashMap/HashSet iteration order is not modelled; the drivers sort maps by name before printing, theorems are up to permutation / lookup",
     "hosts_parse_denotes / hosts_errors speak about files described by a syntax tree (HostsSpec.v): ASCII white space HT VT FF CR SP, "
     "fields of ASCII non-space non-'#' characters, LF or CRLF terminators, a line's own text not ending in CR; an address-only line "
-    "is required to have a well-formed address only if white space follows it (the code's behaviour, see the module docstring)",
+    "is valid (and ignored) whatever its address field is",
     "hosts_roundtrip holds for names whose label octets are ASCII other than white space, '#' and '.' (every name read from a hosts "
     "file is such a name; a Hosts value built by other means with e.g. a space inside a label does not survive serialise)",
     "a hosts name whose leftmost label is '*' does not survive htoz | ztoh (the zone text reads it as a wildcard): counted in the "
@@ -106,10 +107,11 @@ def read_name(f):
 
 
 def read_hosts(text):
-    """('ok', v4, v6, maybe_err) | ('err',) | ('amb',)"""
+    """('ok', v4, v6, maybe_err, addr_only_bad) | ('err',) | ('amb',)"""
     v4, v6 = {}, {}
     maybe_err = False          # a first field starting with '%': not judged
-    addr_only_bad = False      # an address-only line whose single field is not an address
+    addr_only_bad = False      # an address-only line whose single field is not an address: ignored like any
+                               # address-only line; remembered only to name the class of a wrong rejection
     for line in text.split("\n"):
         body = line.split("#", 1)[0]
         if any(ord(c) > 127 for c in body):
@@ -183,8 +185,9 @@ def check_parse(ref, impl_is_err, impl_hosts_tok, what):
         if maybe:
             return None
         if addr_only_bad:
-            # the property text says address-only lines are ignored; the code rejects the file when the
-            # malformed single field is followed by white space (known finding, see known_findings.json)
+            # the property text says address-only lines are ignored; before 25db594 the code rejected the file
+            # when the malformed single field was followed by white space (fixed finding, see
+            # known_findings.json): an ordinary failure, kept under its own class as a regression detector
             return (ADDR_ONLY_CLASS, "%s: a line holding only a malformed address (no names) made the whole file an error" % what)
         return ("rejects-wellformed", "%s: rejected a file hosts(5) reads as %s" % (what, core.trunc(hosts_tok(v4, v6), 200)))
     want = hosts_tok(v4, v6)
@@ -256,7 +259,7 @@ def oracle(case, impl, model):
                 return check_parse(ref, False, "?", "deserialise") if ref[0] == "err" else None
             parts = impl.split("#")
             f = {p[0]: p[1:] for p in parts}
-            _, v4, v6, _m = ref
+            _, v4, v6, _m, _b = ref
             # exactly one A / AAAA record per mapping, TTL 5
             want = {}
             for n, a in v4.items():
@@ -521,9 +524,9 @@ def rand_file(rng, p_bad=0.2, maxlines=8):
 
 
 CORPUS = [
+    "zzz \n1.2.3.4 foo",                  # fixed finding (25db594): the malformed address-only line is ignored, foo -> 1.2.3.4
     "10.0.0.1 a.lan\n10.0.0.2 a.lan\n10.0.0.1 a.lan\n",      # a later identical line still replaces the one between
     "fd00::1 a.lan\nfd00::2 a.lan\nfd00::1 a.lan",
-    "zzz \n1.2.3.4 foo",                  # known finding: malformed address-only line followed by a space
     "1.2.3.4 foo#c",                      # F6: the name ended by '#' is kept
     "1.2.3.4 foo #é",                     # F6b: comment text may be anything
     "1.2.3.4 foo#é\n",
@@ -671,6 +674,7 @@ def has_star_name(text):
 
 
 BIN_CORPUS = [
+    "zzz \n1.2.3.4 foo\n",               # fixed finding (25db594): one mapping
     "1.2.3.4 foo#c\n::1 foo bar. BAZ\n",
     "1.2.3.4 foo #é\n",
     "# only a comment\n\n",
@@ -726,8 +730,12 @@ def extra(ctx):
                 stats["rejected"] += 1
             continue
         if rc != 0:
-            if ref[3] or ref[4]:
+            if ref[3]:
                 stats["rejected"] += 1
+                continue
+            if ref[4]:
+                fails.append(core.Failure(ADDR_ONLY_CLASS, "htoh rejected a file because of a line holding only a malformed address: "
+                                          + core.trunc(e1, 200), case, e1, None))
                 continue
             fails.append(core.Failure("rejects-wellformed", "htoh rejected a well-formed file: " + core.trunc(e1, 200), case, e1, None))
             continue
